@@ -103,7 +103,8 @@ def run_one(seed, tier, explicit=None):
                 max_synsets=6, max_entries=rng.choice([4, 8]), n_ili_files=0,
                 p_ili=rng.choice([0.3, 0.6]), ili_pool=12,
                 p_requires=rng.choice([0.0, 0.5, 1.0]),
-                n_bases=rng.choice([1, 2, 2]), p_second_version=0.0)
+                n_bases=rng.choice([1, 2, 2]), p_second_version=0.0,
+                p_rare_pos=rng.choice([0.0, 0.6]))
     mode = 'full'
     if explicit:
         u = explicit['universe']
@@ -162,6 +163,11 @@ def run_one(seed, tier, explicit=None):
                                     'objects of the same synsets: %s' % res['carried'][0]['call'],
                                     {'hashseed': h, 'hashseed_of_pickler': H[0],
                                      'diffs': res['carried']}, tags=[res['carried'][0]['call']])
+                if res.get('stateful'):
+                    raise Violation(PROP, 'failed-call-state', 'a read-only call that failed '
+                                    '(the caller\'s lemmatizer/normalizer raised) changed what '
+                                    'later calls on the same Wordnet object return',
+                                    {'hashseed': h, 'diffs': res['stateful']})
                 if res['dump_before'] != res['dump_after']:
                     raise Violation(PROP, 'read-only-writes', 'read-only battery changed the '
                                     'database', {'hashseed': h})
